@@ -95,7 +95,7 @@ def fill(env, obj, t, value):
             fill(env, getattr(obj, name), arm["t"], x)
         return
     for j, (m, y) in enumerate(zip(d["ms"], value[1]), 1):
-        name = env.fname(j)
+        name = env.mname(b["i"], j)
         f, t2 = m["f"], m["t"]
         if f == "plain":
             if env.is_sizer(d["ms"], j):
@@ -156,12 +156,12 @@ def extract(env, obj, t):
         raise ValueError("discriminator %r not in schema" % (disc,))
     out = []
     for j, m in enumerate(d["ms"], 1):
-        name = env.fname(j)
+        name = env.mname(b["i"], j)
         f, t2 = m["f"], m["t"]
         if f == "plain":
             if env.is_sizer(d["ms"], j):
-                bound = [q for q, mm in enumerate(d["ms"], 1) if mm["f"] == "ext" and mm["c"] == j]
-                out.append(("len", len(getattr(obj, env.fname(bound[0])))))
+                bound = [q for q, mm in enumerate(d["ms"], 1) if mm["f"] in ("ext", "limx") and mm["c"] == j]
+                out.append(("len", len(getattr(obj, env.mname(b["i"], bound[0])))))
             else:
                 out.append(_extract_val(env, getattr(obj, name), t2))
         elif f == "opt":
